@@ -119,7 +119,15 @@ def run(ctx, c):
     req = herd.requirement(c["code"], c["strategy"])
     feed = [m * req for m in c["feed_mult"]]
     grass = [m * req for m in c["grass_mult"]]
-    animals, fu, gu, _ = herd.run_main(c["code"], feed, grass, c["strategy"])
+    try:
+        animals, fu, gu, _ = herd.run_main(c["code"], feed, grass, c["strategy"], c.get("heads"))
+    except AssertionError:
+        if c.get("heads"):          # the herd model may refuse an overridden stock row (e.g. dairy transfers larger than the meat herd)
+            ctx.abort("herd-model-refuses-overridden-heads")
+            return
+        raise
+    if c.get("heads"):
+        ctx.event("head_counts_overridden")
     ctx.event("strategy " + c["strategy"])
     ctx.sample(dict(code=c["code"], strategy=c["strategy"], months=c["n"], feed_mult_head=c["feed_mult"][:6],
                     grass_mult_head=c["grass_mult"][:6],
